@@ -93,7 +93,10 @@ type Node struct {
 
 	// enum
 	EnumType string // "" untyped, else a JSON type name
-	EnumVals []jv.V
+	// EnumTypes: a list of two or more JSON type names stated next to the enum
+	// (every listed value is of one of them); overrides EnumType when set.
+	EnumTypes []string
+	EnumVals  []jv.V
 
 	// ref
 	Ref    string // text of $ref
@@ -243,6 +246,14 @@ func (n *Node) Render(sp *Spelling) jv.V {
 	tn := typeName(n.Kind)
 	if n.Kind == KEnum {
 		tn = n.EnumType
+	}
+	if n.Kind == KEnum && len(n.EnumTypes) > 1 {
+		tl := jv.ArrV()
+		for _, x := range n.EnumTypes {
+			tl.A = append(tl.A, jv.StrV(x))
+		}
+		add("type", tl)
+		tn = ""
 	}
 	if tn != "" && !n.NoType {
 		switch {
